@@ -282,17 +282,17 @@ func TestC03Record(t *testing.T) {
 				}
 			case "attest":
 				e := s.Entries[0]
-				st.Attest(c01.Client, "", vkit.TargetOf(w.Accounts[e.Key], e.ByKey), s.ViaGRPC, &e.Att)
+				st.Attest(c01.Client, "", vkit.TargetPadded(w.Accounts[e.Key], e.ByKey, e.Pad), s.ViaGRPC, &e.Att)
 			case "batch":
 				ts := make([]vkit.Target, len(s.Entries))
 				as := make([]*vkit.Att, len(s.Entries))
 				for j := range s.Entries {
-					ts[j] = vkit.TargetOf(w.Accounts[s.Entries[j].Key], s.Entries[j].ByKey)
+					ts[j] = vkit.TargetPadded(w.Accounts[s.Entries[j].Key], s.Entries[j].ByKey, s.Entries[j].Pad)
 					as[j] = &s.Entries[j].Att
 				}
 				st.AttestBatch(c01.Client, "", ts, s.ViaGRPC, as)
 			case "propose":
-				st.Propose(c01.Client, "", vkit.TargetOf(w.Accounts[s.Key], s.ByKey), s.ViaGRPC, s.Prop)
+				st.Propose(c01.Client, "", vkit.TargetPadded(w.Accounts[s.Key], s.ByKey, s.Pad), s.ViaGRPC, s.Prop)
 			}
 			mu.Lock()
 			v := viol
